@@ -309,8 +309,7 @@ int main(int argc, char** argv)
     // quick: the operations with multi-record updates (A: top-up txn + 3 writes; I: import; L D: address-book removal txn;
     // T S R: removal of two transactions in one txn); thorough: every history to the crash depth, plus T S R
     const std::set<std::string> forced{"A", "I", "L D", "T S R"};
-    g_cfg.extra = {wh::ParseHist(g_cfg, "T S R")};
-    g_cfg.want_crash = [&](const wh::Run& r) { return forced.count(wh::HistStr(g_cfg, r.h)) > 0 || (big && r.depth <= crash_depth); };
+    g_cfg.want_crash = [&](const wh::Run& r) { return big && r.depth <= crash_depth && !forced.count(wh::HistStr(g_cfg, r.h)); };
     g_cfg.want_torn = [&](const wh::Run& r) { return big && r.depth <= 1; };
     if (!vx::ctx().replay.empty()) {
         std::ifstream f(vx::ctx().replay);
@@ -384,10 +383,19 @@ int main(int argc, char** argv)
     };
 
     fp::Pool pool;
-    wh::Stats S = wh::Explore(g_cfg, recorder, pool, initial, g_scratch);
-    if (S.error) return 2;
+    // (1) the chosen histories first (a run cut short by the deadline has then seen every transaction-wrapped update)
+    wh::Stats S;
+    {
+        wh::Config first = g_cfg;
+        first.max_depth = 0;
+        for (auto& h : forced) first.extra.push_back(wh::ParseHist(g_cfg, h));
+        first.want_crash = [](const wh::Run&) { return true; };
+        if (!g_cfg.only.empty()) first.extra.clear();
+        if (g_cfg.only.empty()) S = wh::Explore(first, recorder, pool, initial, g_scratch + "/first");
+        if (S.error) return 2;
+    }
 
-    // ---- scenario 2: wallet creation (descriptor set-up transaction)
+    // (2) wallet creation (descriptor set-up transaction)
     uint64_t new_states = 0;
     bool new_done = false;
     if (vx::ctx().replay.empty() && !S.cut_short) {
@@ -439,6 +447,13 @@ int main(int argc, char** argv)
             if (!pool.complete) S.cut_short = true;
         } else if (st[0] == -2) S.cut_short = true;
         else { printf("HARNESS-ERROR property=C43 recording wallet creation failed (status %d)\n", st[0]); return 2; }
+    }
+    // (3) breadth-first exploration of all histories
+    if (!S.cut_short) {
+        wh::Stats B = wh::Explore(g_cfg, recorder, pool, initial, g_scratch);
+        if (B.error) return 2;
+        S.histories += B.histories; S.skipped += B.skipped; S.crash_histories += B.crash_histories; S.states_enumerated += B.states_enumerated;
+        S.selfchecked += B.selfchecked; S.ops_logged += B.ops_logged; S.distinct_states = B.distinct_states; S.completed_depth = B.completed_depth; S.cut_short = B.cut_short;
     }
     recorder.stop();
 
